@@ -315,8 +315,9 @@ class FuncAnalysis:
         elif isinstance(t, ast.Subscript):
             base = self.ev(t.value)
             self.ev(t.slice) if not isinstance(t.slice, ast.Slice) else None
+            kind = "subscript-store:const" if isinstance(t.slice, ast.Constant) else "subscript-store:key"
             for o in base:
-                self.mutate(o, "subscript-store", t)
+                self.mutate(o, kind, t)
                 self.gain(o, vals)
         elif isinstance(t, ast.Attribute):
             base = self.ev(t.value)
